@@ -18,7 +18,8 @@ PROP = dict(
           "canvases, clipping-invariance pairs, identities (pixelwise and by operator==), a tenth of the random texts long (8..300 characters or 2^k+-2) with their end placed on the canvas; random texts are byte strings over all 256 values including 0 (up to 8 zero bytes), handed to draw_text through one of the four formats. Non-trivial: the requested rectangle / segment / glyph box is cut by at least one "
           "canvas edge (destination or source) or the pixel coordinate is outside; histories additionally use >= 2 kinds of operation. "
           "Distinct by (operation, canvas geometry, arguments) hash."),
-    assumptions=[
+    assumptions=["resize_blit: the interpolated value may be truncated (as in /repo) or rounded to nearest / up: the bilinear reference +-1 in either direction",
+                 
         "the source of a blit is a different Image object than the destination (overlapping self-blits are order dependent and not part of the statement)",
         "colour formulas (0xFF blending on wide channels, 32-bit packing, channel replication) are mirrored from phosg; geometry, clipping, exceptions and memory safety are independent",
         "mask-image blits whose mask covers (w,h) but not the blitted area in source space are excluded (documented precondition)",
